@@ -323,7 +323,8 @@ ApiRecs == <<
 
 (* pseudo-random multi-RR records: 0..3 RRs per section from the templates *)
 (* (all RR types), owner names from the hostname-safe part of the pool     *)
-OwnerPool == <<N0, N1, N2, N3, N4, N5, N10, N11, N2, N1>>
+\* ... including names that end with another pool name without being label aligned ("1ex.com", "ab.org")
+OwnerPool == <<N0, N1, N2, N3, N4, N5, N10, N11, <<l1ex, lcom>>, <<la \o lb, lorg>>>>
 Lcg(x) == (x * 4093 + 577) % 65521
 ComboRR(x) ==
   LET t == RRT[(x % Len(RRT)) + 1]
